@@ -37,6 +37,7 @@ type Prog struct {
 	predMemo    map[*Func]*Term
 	resEqMemo   map[*Func][]*Term
 	valueMemo   map[*Func]*Term
+	errCtorMemo map[string]int
 	globalMemo    map[*types.Var]*Term
 	globalBusy    map[*types.Var]bool
 	globalInit    map[*types.Var]ast.Expr
@@ -158,6 +159,7 @@ func loadProg(dir string, tests bool, goarch string) *Prog {
 	}
 	p.indexFuncs()
 	dynResolver = p.resolveDynCalls
+	errCtorHook = p.moduleErrCtor
 	return p
 }
 
